@@ -22,3 +22,14 @@ Print Assumptions C09_source_v1_revoke.
 Theorem C09_source_v1_is_revoked : forall r k t, V1.RevocationList_IsRevoked r k t = is_revoked r k t.
 Proof. exact src_v1_is_revoked. Qed.
 Print Assumptions C09_source_v1_is_revoked.
+
+(* the wrappers that take a claim: the claim is an abstract value of which the code observes whether it is nil, its
+   issue time and its subject - nothing else (claim = None for nil, Some (subject, issued-at) otherwise) *)
+Theorem C09_source_account_is_claim_revoked : forall (h : holder) (c : option (string * Z)),
+  V2.AccountClaims_IsClaimRevoked (h_map h) (claim_iat c) (claim_sub c) (claim_nil c) = is_claim_revoked h c.
+Proof. exact src_acct_is_claim_revoked. Qed.
+Print Assumptions C09_source_account_is_claim_revoked.
+Theorem C09_source_export_is_claim_revoked : forall (h : holder) (c : option (string * Z)),
+  V2.Export_IsClaimRevoked (claim_iat c) (claim_sub c) (claim_nil c) (h_map h) = is_claim_revoked h c.
+Proof. exact src_export_is_claim_revoked. Qed.
+Print Assumptions C09_source_export_is_claim_revoked.
